@@ -12,7 +12,8 @@ Xyz == << <<C(0, 0), C(1, 2345678), C(-2, -5000004)>>,
           <<C(0, 1234564), C(12, 47), C(-99999, -9999949)>>,
           <<C(7, 7777777), C(-3, -1415927), C(0, 9999994)>> >>
 (* charges in 1e-5 e: more than 3 decimals, negative, rounds to -0.000, large *)
-Qs  == <<0, 12345, -100060, 200000, -40, 99949, -1234567>>
+(* ... and charges that round to zero from below and from above (-0.0003, -0.00049, +0.0003, +0.00049, -0.00001)     *)
+Qs  == <<0, 12345, -100060, 200000, -40, 99949, -1234567, -30, 30, -49, 49, -1>>
 
 A(el, at, g, lab, xi, qi) == [el |-> el, at |-> at, g |-> g, lab |-> lab, xi |-> xi, qi |-> qi]
 (* every element x atom type x geometry, one atom each (typing table, exhaustive) *)
@@ -59,6 +60,7 @@ DevStaleBond == {"StaleBondTokenCache"}
 DevStaleAtom == {"StaleAtomTokenCache"}
 DevParentIdx == {"EndpointsViaParentIndex"}
 DevMemo == {"ReaderMemoFromHistory"}
+DevNegZero == {"NegativeZeroChargeToken"}
 EditB == {"Double", "Aromatic"}
 NoPhase == {}
 AliasTwo == {"promol", "dropped"}     \* model checking: "struct" behaves like "promol", "view" changes no bookkeeping
